@@ -258,7 +258,8 @@ def read_back(r):
                 if isinstance(v_, (dict, list)) or (isinstance(v_, Stub) and v_.cls is not None):
                     ids.add(id(v_))
         out.append({"start": c.attrs.get("start"), "end": c.attrs.get("end"), "lines": [norm(l) for l in lines],
-                    "italic": norm(ital, drop=True), "unbalanced": depth_bad or on, "x": x, "y": y, "ids": ids})
+                    "italic": norm(ital, drop=True), "unbalanced": depth_bad or on, "x": x, "y": y, "ids": ids,
+                    "_alive": c})        # (the caption is kept alive with its identities: a freed object's id() is reused)
     return out
 
 
